@@ -41,7 +41,7 @@ impl Loose<'_> {
         let op = match c.below(12) {
             0 => {
                 self.feat("unknown_filter_op");
-                "\"approx\"".to_string()
+                ["\"approx\"", "\"\"", "\"\u{e9}\"", "\"=\u{65e5}\"", "\" =\"", "\"==\"", "null", "[\"=\"]", "EQ"][c.below(9)].to_string()
             }
             1 => {
                 self.feat("non_string_op");
@@ -53,7 +53,12 @@ impl Loose<'_> {
             match c.below(10) {
                 0 => {
                     me.feat("bad_operand_name");
-                    ["\"x\"", "\"$\"", "\"%\"", "\"$1a\"", "\"$a-b\"", "3", "null", "\"%%t\""][c.below(8)].to_string()
+                    [
+                        "\"x\"", "\"$\"", "\"%\"", "\"$1a\"", "\"$a-b\"", "3", "null", "\"%%t\"", "\"\"", "\"\u{e9}tag\"", "\"\u{65e5}\u{672c}\"",
+                        "\"\u{1f980}\"", "\"$\u{e9}\"", "\"%\u{65e5}\"", "\" $x\"", "\"$x \"", "\"$_\"", "\"\\u0024x\"", "\"a\\\"b\"", "[\"$x\"]", "true",
+                        "1.5", "{a: \"$x\"}", "$x", "FOO",
+                    ][c.below(25)]
+                    .to_string()
                 }
                 1..=4 => {
                     if me.tags.is_empty() || c.chance(60) {
@@ -98,7 +103,10 @@ impl Loose<'_> {
         match c.below(16) {
             0..=3 => self.filter_directive(c),
             4 | 5 => match c.below(6) {
-                0 => "@output(name: \"bad name!\")".to_string(),
+                0 => format!(
+                    "@output(name: {})",
+                    ["\"bad name!\"", "\"\"", "\"\u{e9}\"", "\"\u{65e5}\u{672c}\"", "\"1a\"", "\"_\"", "\"a\\\"b\"", "[\"a\"]", "null", "$x"][c.below(10)]
+                ),
                 1 => "@output(name: 3)".to_string(),
                 2 => "@output(name: \"a\", name: \"b\")".to_string(),
                 3 => "@output(nam: \"a\")".to_string(),
@@ -106,7 +114,10 @@ impl Loose<'_> {
                 _ => "@output".to_string(),
             },
             6 | 7 => match c.below(5) {
-                0 => "@tag(name: \"bad-name\")".to_string(),
+                0 => format!(
+                    "@tag(name: {})",
+                    ["\"bad-name\"", "\"\"", "\"\u{e9}\"", "\"\u{65e5}\u{672c}\"", "\"1a\"", "\"%t\"", "\"$t\"", "3", "[\"a\"]"][c.below(9)]
+                ),
                 1 => "@tag(name: null)".to_string(),
                 2 => "@tag".to_string(),
                 _ => {
@@ -128,7 +139,7 @@ impl Loose<'_> {
             }
             10 | 11 => if c.chance(30) { "@fold(x: 1)".into() } else { "@fold".into() },
             12 | 13 => match c.below(6) {
-                0 => "@transform(op: \"sum\")".to_string(),
+                0 => format!("@transform(op: {})", ["\"sum\"", "\"\"", "\"\u{e9}\"", "\"count \"", "\"COUNT\"", "[\"count\"]", "null"][c.below(7)]),
                 1 => "@transform(op: 1)".to_string(),
                 2 => "@transform".to_string(),
                 3 => "@transform(op: \"count\", op: \"count\")".to_string(),
@@ -293,9 +304,17 @@ pub fn gen_loose_document(c: &mut Choices<'_>, schema: &SchemaDoc) -> (String, V
     if n_ops != 1 {
         l.feat("operation_count_not_one");
     }
-    if c.chance(12) {
+    if c.chance(20) {
+        // one to three fragment definitions (several of them: the document keeps them in a hash map)
         l.feat("fragment_definition");
-        out.push_str(&format!("fragment F on {} {{ __typename }} ", schema.types[0].name));
+        let n = 1 + c.below(3);
+        for name in ["F", "G", "H"].iter().take(n) {
+            let ty = &schema.types[c.below(schema.types.len())].name;
+            out.push_str(&format!("fragment {name} on {ty} {{ __typename }} "));
+        }
+        if n >= 2 {
+            l.feat("several_fragment_definitions");
+        }
     }
     for i in 0..n_ops {
         match c.below(12) {
@@ -473,7 +492,8 @@ pub fn tokenize(s: &str) -> Vec<String> {
     out
 }
 
-const DICT: [&str; 40] = [
+const DICT: [&str; 48] = [
+    "\"\"", "\"\u{e9}\"", "\"\u{65e5}\u{672c}\"", "\"$\u{e9}\"", "\"%\"", "\"$\"", "\"\u{1f980}\"", "\" \"",
     "@filter", "@output", "@tag", "@optional", "@recurse", "@fold", "@transform", "(", ")", "{", "}", "[", "]", ":",
     ",", "...", "on", "op", "value", "name", "depth", "\"count\"", "\"=\"", "\"<\"", "\"one_of\"", "\"regex\"",
     "\"is_null\"", "\"$x\"", "\"%t\"", "1", "0", "-1", "null", "true", "FOO", "query", "mutation", "fragment", "$v",
@@ -549,6 +569,199 @@ pub fn gen_spliced_document(c: &mut Choices<'_>) -> Option<(String, String, Stri
 }
 
 // ---------------------------------------------------------------------------------------------
+// (iii) a valid generated query (rich in folds, tags, count filters) with one to three point mutations at AST level:
+// the error-recovery paths of the frontend then run in the middle of otherwise valid, complex context
+
+use crate::query_ast::{gen_query, Arg, EdgeSel, Filter, PropSel, Query, QueryGenConfig, Sel};
+
+fn for_each_prop<'a>(e: &'a mut EdgeSel, f: &mut dyn FnMut(&'a mut PropSel)) {
+    for s in e.body.iter_mut() {
+        match s {
+            Sel::Prop(p) => f(p),
+            Sel::Edge(ch) => for_each_prop(ch, f),
+        }
+    }
+}
+
+fn for_each_edge(e: &mut EdgeSel, f: &mut dyn FnMut(&mut EdgeSel)) {
+    for s in e.body.iter_mut() {
+        if let Sel::Edge(ch) = s {
+            f(ch);
+            for_each_edge(ch, f);
+        }
+    }
+}
+
+/// every filter of the query (property filters and fold-count filters), visited in document order
+fn for_each_filter(e: &mut EdgeSel, f: &mut dyn FnMut(&mut Filter)) {
+    if let Some(cs) = e.count.as_mut() {
+        for fl in cs.filters.iter_mut() {
+            f(fl);
+        }
+    }
+    for s in e.body.iter_mut() {
+        match s {
+            Sel::Prop(p) => {
+                for fl in p.filters.iter_mut() {
+                    f(fl);
+                }
+            }
+            Sel::Edge(ch) => for_each_filter(ch, f),
+        }
+    }
+}
+
+pub const POINT_MUTATIONS: [&str; 14] = [
+    "tag_operand_undefined",
+    "filter_op_replaced",
+    "property_renamed_to_unknown",
+    "variable_shared_across_types",
+    "edge_kind_toggled",
+    "output_name_duplicated",
+    "tag_used_before_definition",
+    "coercion_to_unrelated_type",
+    "operand_kind_swapped",
+    "tag_name_duplicated",
+    "edge_renamed_to_unknown",
+    "filter_added_to_first_property",
+    "recurse_depth_zero",
+    "output_name_invalid",
+];
+
+fn mutate_query(c: &mut Choices<'_>, schema: &SchemaDoc, q: &mut Query) -> Vec<&'static str> {
+    let n = 1 + c.below(3);
+    let mut applied = vec![];
+    for _ in 0..n {
+        let label = POINT_MUTATIONS[c.below(POINT_MUTATIONS.len())];
+        let pick = c.below(64);
+        let aux = c.below(64);
+        let mut count = 0usize;
+        let mut done = false;
+        match label {
+            "tag_operand_undefined" | "filter_op_replaced" | "variable_shared_across_types" | "operand_kind_swapped" => {
+                let mut total = 0usize;
+                for_each_filter(&mut q.root, &mut |_| total += 1);
+                if total == 0 {
+                    continue;
+                }
+                let target = (pick * total) >> 6;
+                for_each_filter(&mut q.root, &mut |f| {
+                    if count == target {
+                        match label {
+                            "tag_operand_undefined" => f.arg = Some(Arg::Tag("never_defined".into())),
+                            "filter_op_replaced" => f.op = ALL_OPS[(aux * ALL_OPS.len()) >> 6],
+                            "variable_shared_across_types" => f.arg = Some(Arg::Var("v1".into())),
+                            _ => {
+                                f.arg = match f.arg.take() {
+                                    Some(Arg::Var(v)) => Some(Arg::Tag(v)),
+                                    Some(Arg::Tag(t)) => Some(Arg::Var(t)),
+                                    None => Some(Arg::Var("v1".into())),
+                                }
+                            }
+                        }
+                        if f.arg.is_none() && !f.op.is_unary() {
+                            f.arg = Some(Arg::Var("v1".into()));
+                        }
+                        done = true;
+                    }
+                    count += 1;
+                });
+            }
+            "property_renamed_to_unknown" | "output_name_duplicated" | "tag_used_before_definition" | "tag_name_duplicated"
+            | "filter_added_to_first_property" | "output_name_invalid" => {
+                let mut total = 0usize;
+                let mut first_output: Option<String> = None;
+                let mut last_tag: Option<String> = None;
+                for_each_prop(&mut q.root, &mut |p| {
+                    total += 1;
+                    if first_output.is_none() {
+                        first_output = p.outputs.iter().flatten().next().cloned();
+                    }
+                    if let Some(t) = p.tags.iter().flatten().last() {
+                        last_tag = Some(t.clone());
+                    }
+                });
+                if total == 0 {
+                    continue;
+                }
+                let target = if label == "filter_added_to_first_property" { 0 } else { (pick * total) >> 6 };
+                for_each_prop(&mut q.root, &mut |p| {
+                    if count == target {
+                        match label {
+                            "property_renamed_to_unknown" => p.name = "no_such_property".into(),
+                            "output_name_duplicated" => p.outputs.push(Some(first_output.clone().unwrap_or_else(|| "o1".into()))),
+                            "tag_used_before_definition" => p.filters.push(Filter {
+                                op: ALL_OPS[(aux * ALL_OPS.len()) >> 6],
+                                arg: Some(Arg::Tag(last_tag.clone().unwrap_or_else(|| "t1".into()))),
+                            }),
+                            "tag_name_duplicated" => p.tags.push(Some(last_tag.clone().unwrap_or_else(|| "t1".into()))),
+                            "filter_added_to_first_property" => p.filters.push(Filter {
+                                op: ALL_OPS[(aux * ALL_OPS.len()) >> 6],
+                                arg: Some(Arg::Tag(last_tag.clone().unwrap_or_else(|| "t1".into()))),
+                            }),
+                            _ => p.outputs.push(Some(["", "1x", "a b", "\u{e9}", "a-b"][aux % 5].to_string())),
+                        }
+                        if let Some(f) = p.filters.last_mut() {
+                            if f.op.is_unary() {
+                                f.arg = None;
+                            }
+                        }
+                        done = true;
+                    }
+                    count += 1;
+                });
+            }
+            _ => {
+                let mut total = 0usize;
+                for_each_edge(&mut q.root, &mut |_| total += 1);
+                if total == 0 {
+                    continue;
+                }
+                let target = (pick * total) >> 6;
+                let type_names: Vec<String> = schema.types.iter().map(|t| t.name.clone()).collect();
+                for_each_edge(&mut q.root, &mut |e| {
+                    if count == target {
+                        match label {
+                            "edge_kind_toggled" => match aux % 5 {
+                                0 => e.fold = !e.fold,
+                                1 => e.optional = !e.optional,
+                                2 => e.recurse = if e.recurse.is_some() { None } else { Some(2) },
+                                3 => {
+                                    e.fold = true;
+                                    e.optional = true;
+                                }
+                                _ => {
+                                    e.fold = true;
+                                    e.recurse = Some(1);
+                                }
+                            },
+                            "coercion_to_unrelated_type" => e.coerce = Some(type_names[aux % type_names.len()].clone()),
+                            "edge_renamed_to_unknown" => e.name = "no_such_edge".into(),
+                            _ => e.recurse = Some(0),
+                        }
+                        done = true;
+                    }
+                    count += 1;
+                });
+            }
+        }
+        if done {
+            applied.push(label);
+        }
+    }
+    applied
+}
+
+pub fn gen_mutated_valid(c: &mut Choices<'_>) -> (SchemaDoc, String, Vec<&'static str>) {
+    let schema = gen_schema(c, &SchemaGenConfig::default());
+    let qcfg = QueryGenConfig { fold_bias: c.chance(128), ..QueryGenConfig::default() };
+    let mut q = gen_query(c, &schema, &qcfg);
+    let applied = mutate_query(c, &schema, &mut q);
+    let text = q.render();
+    (schema, text, applied)
+}
+
+// ---------------------------------------------------------------------------------------------
 
 pub enum HostileCase {
     Generated { schema: SchemaDoc, sdl: String, text: String, features: Vec<&'static str> },
@@ -556,10 +769,17 @@ pub enum HostileCase {
 }
 
 pub fn decode_hostile(c: &mut Choices<'_>) -> HostileCase {
-    if c.chance(90) {
+    let source = c.below(100);
+    if source < 30 {
         if let Some((schema_name, from, text)) = gen_spliced_document(c) {
             return HostileCase::Spliced { schema_name, from, text };
         }
+    }
+    if source < 65 {
+        let (schema, text, mut features) = gen_mutated_valid(c);
+        features.push("source:valid_query_with_point_mutations");
+        let sdl = schema.render();
+        return HostileCase::Generated { schema, sdl, text, features };
     }
     let schema = gen_schema(c, &SchemaGenConfig::default());
     let (text, features) = gen_loose_document(c, &schema);
@@ -604,7 +824,9 @@ pub fn c10_case(bytes: &[u8], stats: &mut Stats, counting: bool) -> Verdict {
         stats.label(&format!("outcome:{kind}"));
         match &case {
             HostileCase::Generated { features, .. } => {
-                stats.label("source:loose_generator");
+                if !features.contains(&"source:valid_query_with_point_mutations") {
+                    stats.label("source:loose_generator");
+                }
                 for f in features {
                     stats.label(f);
                 }
@@ -678,7 +900,10 @@ pub fn c10(ctx: &CheckCtx) -> i32 {
          operators, fragments, inline fragments with and without types, on properties and with siblings, 0-4 operations, \
          mutation/subscription, variable definitions, every literal kind as edge argument, @recurse depths 0/-1/1.5/\"x\"/huge, \
          @transform chains) and (ii) token-level mutation and splicing of the repository's own test queries over the \
-         repository's six schemas, and (iii) raw printable byte strings; oracle: frontend::parse returns Ok or Err and never \
+         repository's six schemas, (iii) valid generated queries (folds, tags, count filters, recursion) with one to three AST-level \
+         point mutations (undefined tag operand, replaced operator, unknown property / edge, variable shared across types, toggled \
+         @fold/@optional/@recurse, duplicated output / tag name, tag used before its definition, unrelated coercion, ...), so that \
+         error paths run in the middle of complex valid context, and (iv) raw byte strings over an alphabet with multi-byte characters; oracle: frontend::parse returns Ok or Err and never \
          unwinds. Non-trivial: text the GraphQL parser accepts (so the frontend proper ran); distinct by text hash.",
     );
     report.assume("query nesting depth is bounded (<= 6 levels) so the third-party parser's native recursion cannot overflow the stack");
@@ -693,8 +918,9 @@ pub fn c10(ctx: &CheckCtx) -> i32 {
 
 fn bytes_to_text(b: &[u8]) -> String {
     // map bytes onto a small alphabet that is dense in GraphQL punctuation
-    const ALPHA: &[u8] = b"{}()[]:,@$%\"! \n.abefilnoprtuvx_0123456789-";
-    b.iter().map(|x| ALPHA[(*x as usize * ALPHA.len()) >> 8] as char).collect()
+    const ALPHA: &str = "{}()[]:,@$%\"! \n.abefilnoprtuvx_0123456789-\u{e9}\u{65e5}\u{1f980}\\";
+    let alpha: Vec<char> = ALPHA.chars().collect();
+    b.iter().map(|x| alpha[(*x as usize * alpha.len()) >> 8]).collect()
 }
 
 pub fn c10_bytes_case(bytes: &[u8], stats: &mut Stats, counting: bool) -> Verdict {
